@@ -5,6 +5,9 @@ Dispatch.v  <- outrank/algorithms/importance_estimator.py
     the if/elif chain over the heuristic name in `conduct_feature_ranking` (reached from
     `get_importances_estimate_pairwise`) and the correction-flag expression of `numba_mi`, as
         dispatch : str -> scorer            (str = list N of code points)
+    plus, from outrank/core_ranking.py, the two other name tests on the scoring path:
+        is_const_name : str -> bool         (`args.heuristic == 'Constant'`, the no-scoring shortcut of mixed_rank_graph)
+        is_3mr_name   : str -> bool         (`'3mr' in args.heuristic`, get_combinations_from_columns)
     Accepted tests (anything else: refuse):  heuristic == 'lit' | heuristic != 'lit' | heuristic in {lits}
     | 'lit' in heuristic | not t | t and t | t or t,  where `heuristic` is the local bound to args.heuristic
     (or args.heuristic itself).  Accepted branch bodies: `score = <known scorer call>(vector_first, vector_second…)`,
@@ -303,7 +306,7 @@ class Dispatch:
             break
         return host.name, branches, final, flag_src
 
-    def emit(self):
+    def emit(self, extra_defs=""):
         host, branches, final, flag_src = self.chain()
         out = []
         out.append("(* GENERATED by tools/translate_dispatch.py from outrank/algorithms/importance_estimator.py — do not edit.")
@@ -320,7 +323,43 @@ class Dispatch:
             out.append("  if %s then %s else" % (t, s))
         out.append("  %s." % final)
         out.append("")
+        if extra_defs:
+            out.append(extra_defs)
         return "\n".join(out)
+
+
+# --------------------------------------------------------------------------------------------------
+# the two other tests of the heuristic name on the scoring path (outrank/core_ranking.py)
+
+def core_name_tests(src, fname):
+    """`if args.heuristic == 'Constant':` (the no-scoring shortcut of mixed_rank_graph, must return from the function)
+    and `if '3mr' in args.heuristic:` (candidate space of get_combinations_from_columns).  Each function must mention
+    args.heuristic exactly once, inside the test of an `if` statement of an accepted shape."""
+    d = Dispatch(src, fname)
+    out = []
+    for fn, coqname, must_return in (("mixed_rank_graph", "is_const_name", True),
+                                     ("get_combinations_from_columns", "is_3mr_name", False)):
+        f = d.funcs.get(fn)
+        if f is None:
+            raise Refuse("%s: function %s not found" % (fname, fn))
+        argnames = [a.arg for a in f.args.args]
+        if "args" not in argnames:
+            raise Refuse("%s: %s has no `args` parameter" % (d.where(f), fn))
+        mentions = [n for n in ast.walk(f) if isinstance(n, ast.Attribute) and n.attr == "heuristic"]
+        ifs = [n for n in ast.walk(f) if isinstance(n, ast.If)
+               and any(isinstance(m, ast.Attribute) and m.attr == "heuristic" for m in ast.walk(n.test))]
+        if len(ifs) != 1:
+            raise Refuse("%s: expected exactly one `if` on args.heuristic in %s, found %d" % (d.where(f), fn, len(ifs)))
+        inside = [m for m in ast.walk(ifs[0].test) if isinstance(m, ast.Attribute) and m.attr == "heuristic"]
+        if len(inside) != len(mentions):
+            raise Refuse("%s: %s uses args.heuristic outside the recognised test" % (d.where(f), fn))
+        t = d.test(ifs[0].test, set(), "args")
+        if must_return and not any(isinstance(s, ast.Return) for s in ifs[0].body):
+            raise Refuse("%s: the Constant branch of %s does not return" % (d.where(ifs[0]), fn))
+        out.append("(* %s: %s *)" % (fn, cmt(d.text(ifs[0].test))))
+        out.append("Definition %s (h : str) : bool := %s." % (coqname, t))
+        out.append("")
+    return "\n".join(out)
 
 
 # --------------------------------------------------------------------------------------------------
@@ -480,7 +519,9 @@ def run(repo, outdir):
     src_path = os.path.join(repo, "outrank", "algorithms", "importance_estimator.py")
     try:
         src = open(src_path, encoding="utf8").read()
-        text = Dispatch(src, "outrank/algorithms/importance_estimator.py").emit()
+        core_src = open(os.path.join(repo, "outrank", "core_ranking.py"), encoding="utf8").read()
+        extra = core_name_tests(core_src, "outrank/core_ranking.py")
+        text = Dispatch(src, "outrank/algorithms/importance_estimator.py").emit(extra)
     except (Refuse, SyntaxError, OSError) as e:
         ok = False
         msgs.append("Dispatch.v: %s" % e)
